@@ -86,29 +86,65 @@ def do_check(pid, tier, keep=False, only=None):
     samples = []
 
     # ---------------- Kani ----------------
+    # Units are built in groups (one scratch copy per group): a unit that stubs a function
+    # cannot share a build with the unit that attaches an in-place contract to it.
+    kruns = []
     krun = None
     try:
         if sel:
-            used_units = []
-            for u, _ in sel:
-                if u not in used_units:
-                    used_units.append(u)
-            for u in list(used_units):
-                for rq in u.requires:
-                    if rq not in [x.name for x in used_units]:
-                        used_units.append(kunits[rq] if rq in kunits else K.KUnit(rq))
-            krun = K.KaniRun(pid, used_units, keep=keep)
-            krun.prepare()
-            krun.build()
+            groups = {}
+            for u, hn in sel:
+                groups.setdefault(u.cfg.get('group', 'main'), []).append((u, hn))
             workers = int(os.environ.get('VERIF_JOBS', '8'))
 
-            def one(uh):
-                u, hn = uh
-                return uh, krun.run_harness(u, hn)
+            def run_group(item):
+                g, pairs = item
+                used = []
+                for u, _ in pairs:
+                    if u not in used:
+                        used.append(u)
+                for u in list(used):
+                    for rq in u.requires:
+                        if rq not in [x.name for x in used]:
+                            used.append(kunits[rq] if rq in kunits else K.KUnit(rq))
+                kr = K.KaniRun(f'{pid}.{g}', used, keep=keep)
+                kruns.append(kr)
+                kr.prepare()
+                kr.build()
+                return kr, pairs
+
+            with ThreadPoolExecutor(max_workers=4) as ex:
+                built = list(ex.map(run_group, sorted(groups.items())))
+            jobs = [(kr, u, hn) for kr, pairs in built for (u, hn) in pairs]
+
+            def one(j):
+                kr, u, hn = j
+                r = kr.run_harness(u, hn)
+                # Fallback chain on back-end crashes (never on a verdict):
+                #   cvc5-fpa (CBMC's own cvc5 flavour) aborts with "map::at" on goto programs holding Box/Rc<dyn>;
+                #   cvc5 (bit-vector flavour through vx/smtwrap) can make CBMC abort while reading a `sat` model,
+                #   and havocs some heap builtins; cadical (SAT) is precise but slow on float multipliers.
+                chain = {'cvc5-fpa': 'cvc5', 'cvc5': 'cadical'}
+                cur = u.harness[hn].get('solver')
+                tried = [cur]
+                while cur in chain and not r['killed'] and 'CBMC failed with status' in r['out']:
+                    cur = chain[cur]
+                    r2 = kr.run_harness(u, hn, solver_override=cur, timeout=u.harness[hn].get('fallback_timeout', 400))
+                    r2['wall_s'] += r['wall_s']
+                    tried.append(cur)
+                    r2['fallback_from'] = ' -> '.join(tried[:-1]) + ' (back end aborted)'
+                    r2['final_solver'] = cur
+                    r = r2
+                return (kr, u, hn), r
 
             with ThreadPoolExecutor(max_workers=workers) as ex:
-                results = list(ex.map(one, sel))
-            for (u, hn), r in results:
+                results = list(ex.map(one, jobs))
+            used_units = []
+            for kr, _ in built:
+                for u in kr.units:
+                    if u not in used_units:
+                        used_units.append(u)
+            for (krun, u, hn), r in results:
                 h = u.harness[hn]
                 rep = {'unit': u.name, 'harness': hn, 'backend': 'kani/cbmc', 'solver': h.get('solver', 'cadical(default)'),
                        'tier': h.get('tier', 'quick'), 'wall_s': r['wall_s'], 'peak_rss_mb': r['peak_rss_mb'], 'cmd': r['cmd']}
@@ -127,7 +163,9 @@ def do_check(pid, tier, keep=False, only=None):
                 checks, solver_s, vt, verdict = K.parse_results(r['out'])
                 solver_total += solver_s
                 rep['solver_s'] = round(solver_s, 2)
-                if verdict is None:
+                if r.get('fallback_from'):
+                    rep['solver'] = r['final_solver'] + ' (fallback from ' + r['fallback_from'] + ')'
+                if verdict is None or 'CBMC failed with status' in r['out']:
                     undecided.append(f'{u.name}:{hn}: no verdict from kani (rc={r["rc"]}): ' + r['out'][-1500:])
                     rep['status'] = 'undecided:no-verdict'
                     unit_reports.append(rep)
@@ -169,7 +207,7 @@ def do_check(pid, tier, keep=False, only=None):
                             rec['status'] = 'KNOWN-FINDING ' + kf_id
                             rec['known_finding'] = True
                         else:
-                            hv.append({'unit': u, 'harness': hn, 'clause': clause, 'oid': oid, 'detail': detail, 'kani_out': r['out'],
+                            hv.append({'unit': u, 'harness': hn, 'clause': clause, 'oid': oid, 'detail': detail, 'kani_out': r['out'], 'krun': krun,
                                        'descs': sorted(res['obl_desc'].get(clause, [])) if clause != 'no_panic' else [d['desc'] for d in res['panics']]})
                     elif st == 'UNREACHABLE':
                         undecided.append(f'{u.name}:{hn}: vacuity guard: clause {clause} unreachable')
@@ -184,8 +222,8 @@ def do_check(pid, tier, keep=False, only=None):
                 rep['status'] = 'FAILED' if hv else 'verified'
                 violations.extend(hv)
                 unit_reports.append(rep)
-            for p in krun.prov:
-                samples.append(p)
+            for kr, _ in built:
+                samples.extend(kr.prov)
             for u in used_units:
                 assumptions.extend(u.cfg.get('assumptions', []))
                 trusted.extend(u.cfg.get('trusted', []))
@@ -221,11 +259,11 @@ def do_check(pid, tier, keep=False, only=None):
         if violations and not undecided_blocks(undecided):
             os.makedirs(REPLAYS, exist_ok=True)
             for v in violations:
-                path, has_input = make_replay(pid, v, krun)
+                path, has_input = make_replay(pid, v, v.get('krun'))
                 vio_lines.append(f'VIOLATION property={pid} replay={path}' + ('' if has_input else ' no-failing-input-found'))
     finally:
-        if krun:
-            krun.close()
+        for kr in kruns:
+            kr.close()
 
     # ---------------- evidence ----------------
     counted = [o for o in obligations if not o.get('bounded') and not o.get('known_finding')]
@@ -258,8 +296,10 @@ def do_check(pid, tier, keep=False, only=None):
     print(f'[{pid}] tier={tier} obligations={len(counted)} discharged={len(discharged)} bounded={len([o for o in obligations if o.get("bounded")])} '
           f'violations={len(violations)} undecided={len(undecided)} wall={ev["wall_s"]}s')
     if undecided:
-        for u in undecided:
-            print('UNDECIDED:', u[:3000])
+        for u in undecided[:12]:
+            print('UNDECIDED:', u[:2000])
+        if len(undecided) > 12:
+            print(f'UNDECIDED: ... and {len(undecided) - 12} more (see evidence file)')
     if violations and not undecided_blocks(undecided):
         for v in violations:
             print(f'  failed obligation: {pid}/{v["oid"]}')
